@@ -1962,6 +1962,23 @@ func TestVerifC04(t *testing.T) {
 		}
 	}
 
+	// fix 299ec77: the geodata cache keeps the file name as written.  Deterministic witness: ONE optimizer
+	// instance first expands ext:'Extra:mix', then ext:'extra:mix' (another file, other content).
+	{
+		a := c04Parse(t, "domain(ext:'Extra:mix') -> proxy")
+		b := c04Parse(t, "domain(ext:'extra:mix') -> proxy")
+		chain := env.sharedChain("traffic")
+		_, _ = routing.ApplyRulesOptimizers(a, chain...)
+		got, err1 := routing.ApplyRulesOptimizers(b, chain...)
+		want, err2 := routing.ApplyRulesOptimizers(b, env.optimizers("traffic")...)
+		same := "differs"
+		if err1 == nil && err2 == nil && c04SerProg(got) == c04SerProg(want) {
+			same = "same"
+		}
+		out.emit("sharedcache witness", "shared="+same, c04Descr{Kind: "shared", Backend: "traffic", Tag: "c04-geodata-cache-key-folds-file-name",
+			Text: []string{"domain(ext:'Extra:mix') -> proxy  (expanded first by the same optimizer instance)", "domain(ext:'extra:mix') -> proxy"}})
+	}
+
 	// constructed FNV collisions of two different address sets
 	nColl := 12
 	if VThorough() {
